@@ -25,6 +25,14 @@ ASSUMPTIONS = ['sqlite3 reference engine with the integration ATTACHed under its
 BUDGET = {'quick': (8, 270), 'thorough': (16, 1800)}
 
 SHADOW = [
+    # a ONE-part name spelled like the integration (a column alias used again in ORDER BY / HAVING, a CTE): nothing to cut
+    ('column-alias-eq-integration-in-order-by', 'SELECT p.id AS int1, p.a AS a FROM int1.t1 AS p ORDER BY int1 DESC, a', True),
+    ('column-alias-eq-integration-in-having', 'SELECT p.a AS int1, count(*) AS n FROM int1.t1 AS p GROUP BY p.a HAVING int1 > 1', False),
+    ('cte-named-like-integration', 'WITH int1 AS (SELECT p.id AS id, p.a AS a FROM int1.t1 AS p WHERE p.id > 1) SELECT int1.id AS id, int1.a AS a FROM int1', False),
+    # a DERIVED table aliased like the integration, its columns qualified by that alias, next to another table with same-named columns
+    ('derived-alias-eq-integration-join', 'SELECT int1.id AS id, q.d AS d FROM (SELECT s.id AS id, s.a AS a FROM int1.t1 AS s WHERE s.id > 1) AS int1 JOIN int1.t2 AS q ON int1.id = q.id', False),
+    ('derived-alias-eq-integration-correlated', 'SELECT int1.id AS id FROM (SELECT s.id AS id, s.a AS a FROM int1.t1 AS s) AS int1 WHERE EXISTS (SELECT 1 FROM int1.t2 AS q WHERE q.a = int1.id)', False),
+    ('union-derived-alias-eq-integration', 'SELECT int1.id AS id FROM (SELECT s.id AS id FROM int1.t1 AS s UNION SELECT u.id AS id FROM int1.t3 AS u) AS int1 JOIN int1.t2 AS q ON q.id = int1.id WHERE q.a IS NOT NULL', False),
     # table / column aliases that coincide with the integration name, qualified columns, stars
     ('alias-eq-integration', 'SELECT int1.id AS id, int1.a AS a FROM int1.t1 AS int1 WHERE int1.a > 0', False),
     ('qualified-columns', 'SELECT int1.t1.id AS id, int1.t1.a AS a FROM int1.t1 WHERE int1.t1.a IS NOT NULL', False),
@@ -95,7 +103,7 @@ NEGATIVE = [
 
 
 def floors(tier):
-    return {'prepared_entry_compared': 100, 'compared': 1500, 'len:shadow_shapes': 32, 'negative_variants': 50, 'len:catalog_forms': 4}
+    return {'prepared_entry_compared': 100, 'compared': 1500, 'len:shadow_shapes': 36, 'negative_variants': 50, 'len:catalog_forms': 4}
 
 
 def ceilings(tier):
